@@ -9,7 +9,7 @@ SLOTS=${@:-$(ls seeded)}
 miss=0
 for s in $SLOTS; do
   id=${s%%-*}
-  git -C /repo apply seeded/$s/patch.diff || { echo "$s: patch does not apply"; miss=1; continue; }
+  git -C /repo apply /verif/seeded/$s/patch.diff 2>/dev/null || { echo "$s: patch does not apply"; miss=1; continue; }
   out=$(./check $id quick 2>&1); rc=$?
   git -C /repo checkout -- .
   if [ $rc -eq 1 ] && echo "$out" | grep -q "^VIOLATION property=$id"; then
